@@ -28,7 +28,7 @@ from typing import Any, List, Optional, NamedTuple
 
 from .exception import MementoException
 from .logging import log
-from .metadata import Memento
+from .metadata import Memento, ResultType
 from .storage import StorageBackend
 from .context import InvocationContext
 from .reference import FunctionReferenceWithArguments
@@ -52,8 +52,9 @@ def process_existing_memento(
     logs that the result will be recomputed. The previously memoized result
     is forgotten and (None, False) is returned.
 
-    Otherwise, if ignore_result is True, log that the result was memoized but
-    ignored. (None, True) is returned.
+    Otherwise, if ignore_result is True and the memoized result is not an exception,
+    log that the result was memoized but ignored. (None, True) is returned. A memoized
+    exception is still propagated.
 
     Otherwise, the results of the invocation are retrieved and returned. If
     there was an IO error retrieving results, the error is logged and None is
@@ -66,7 +67,11 @@ def process_existing_memento(
 
     try:
         # If result already exists, deserialize and return
-        if ignore_result:
+        if (
+            ignore_result
+            and existing_memento.invocation_metadata.result_type
+            != ResultType.exception
+        ):
             log.debug(
                 "Result of {} was already memoized and is ignored".format(
                     str(fn_reference_with_args)
